@@ -377,6 +377,12 @@ COMPATIBLE = {
 # (requested setting, basis actually present, family) - 22 combinations
 CONVERSION_TABLE = ([(s, s, f) for s in ('p', 'i', 'f', 'a', 'b', 'c', 't1', 't2') for f in COMPATIBLE[s]]
                     + [('t', 't1', 'hexagonal'), ('t', 't2', 'hexagonal')])
+# Centred cells of families that are not among the 14 conventional Bravais cells (a face-centred tetragonal cell, a
+# body-centred monoclinic one ...): every centring translation set is closed modulo the cell, so the crystal is a
+# perfectly good one, and conventional_to_primitive documents check_family=False for exactly these.
+NONCONVENTIONAL_TABLE = [('i', 'i', 'monoclinic'), ('i', 'i', 'triclinic'), ('f', 'f', 'tetragonal'), ('f', 'f', 'triclinic'),
+                         ('a', 'a', 'tetragonal'), ('b', 'b', 'cubic'), ('c', 'c', 'hexagonal'),
+                         ('t1', 't1', 'orthorhombic'), ('t2', 't2', 'triclinic')]
 
 # Primitive cell vectors in units of the conventional ones, in the convention the two dump styles
 # share (needed only to *construct* primitive input cells that the styles accept; it is not used
@@ -420,15 +426,53 @@ def verify_primitive_tables():
     return out
 
 
-def gen_conventional(rng, basis, family, nmotif, ntypes, origin_class='zero'):
-    """Conventional cell of ``family`` whose atoms are a motif (first atom at the lattice point
-    0,0,0) repeated by the centring translations of ``basis``.  Atoms related by a centring
-    translation carry the same type and property values (otherwise the crystal would not have
+# Motif classes of a centred conventional cell.  'corner+generic': first motif atom ON the lattice point 0,0,0 (what the
+# basis check of conventional_to_primitive demands); the others have NO atom on a lattice point ("complex unit cells where
+# no atoms are at the lattice site [0, 0, 0]", the documented use of check_basis=False): 'generic' positions, atoms on
+# cell faces / edges, one atom 1e-4 x the shortest cell vector away from the lattice point (any direction, so it may sit
+# just below an upper face), and simple fractions (0, 1/4, 1/3, 1/2, 2/3, 3/4 - diamond-like motifs, atoms on the faces
+# of the primitive cell) that are not lattice points.
+MOTIF_CLASSES = ('corner+generic', 'generic', 'face', 'near-corner', 'fractions')
+_FRACTIONS = np.array([0.0, 0.25, 1 / 3, 0.5, 2 / 3, 0.75])
+NEAR_CORNER = 1e-4
+
+
+def gen_motif(rng, nmotif, motif_class, vects, basis):
+    """nmotif relative positions (conventional cell) of the requested motif class, distinct under the centring
+    translations of ``basis``."""
+    tr = CENTERING[basis]
+    if motif_class in ('corner+generic', 'generic', 'face'):
+        return gen_rel_positions(rng, nmotif, motif_class, vects, tr)
+    lmin = np.linalg.norm(vects, axis=1).min()
+    for _ in range(400):
+        if motif_class == 'near-corner':
+            rel = rng.uniform(0.04, 0.96, (nmotif, 3))
+            d = rng.normal(size=3)
+            d *= NEAR_CORNER * lmin / np.linalg.norm(d)
+            rel[0] = np.linalg.solve(np.asarray(vects, float).T, d)
+            rel[0] -= np.floor(rel[0])
+        elif motif_class == 'fractions':
+            rel = _FRACTIONS[rng.integers(0, len(_FRACTIONS), (nmotif, 3))]
+            if any(in_centred_lattice(r, basis) for r in rel):
+                continue
+        else:
+            raise ValueError(motif_class)
+        full = np.vstack([rel] + [rel + np.asarray(t, float) for t in tr])
+        full = full - np.floor(full)
+        if _min_image_sep(full, vects) > (0.12 if motif_class == 'near-corner' else 0.05) * lmin:
+            return rel
+    raise RuntimeError('could not place motif')
+
+
+def gen_conventional(rng, basis, family, nmotif, ntypes, origin_class='zero', motif_class='corner+generic'):
+    """Conventional cell of ``family`` whose atoms are a motif (class ``motif_class``; by default the first
+    atom at the lattice point 0,0,0) repeated by the centring translations of ``basis``.  Atoms related by
+    a centring translation carry the same type and property values (otherwise the crystal would not have
     that lattice)."""
     c = origin_cell(rng, family, origin_class, 1.0)
     v, o = c['vects'], c['origin']
     tr = CENTERING[basis]
-    mrel = gen_rel_positions(rng, nmotif, 'corner+generic', v, tr)
+    mrel = gen_motif(rng, nmotif, motif_class, v, basis)
     atype, idn, vec, symbols = decorate(rng, nmotif, ntypes)
     shifts = [np.zeros(3)] + [np.asarray(t, float) for t in tr]
     rel = np.vstack([mrel + s for s in shifts])
@@ -437,7 +481,8 @@ def gen_conventional(rng, basis, family, nmotif, ntypes, origin_class='zero'):
     k = len(shifts)
     return dict(kind=family, basis=basis, origin_class=origin_class, vects=v, origin=o, L=c['L'], rel=rel, pos=G.cart(rel, v, o),
                 atype=np.tile(atype, k), idn=np.tile(idn, k), vec=np.tile(vec, (k, 1)), symbols=symbols,
-                natoms=nmotif * k, nmotif=nmotif, motif_rel=mrel,
+                natoms=nmotif * k, nmotif=nmotif, motif_rel=mrel, motif_class=motif_class,
+                site_atom=bool(any(in_centred_lattice(r, basis, 1e-12) for r in mrel)),
                 motif=dict(atype=atype, idn=idn, vec=vec))
 
 
